@@ -236,8 +236,12 @@ def selftest_mutants(prop, names, tier='quick'):
       rc, tot, out = run_check(prop, tier, extra_env={'VERIF_FLAX_ROOT': root, 'VERIF_SHRINK_S': '10'}, write_evidence=False, quiet=True)
       kinds = sorted({v['kind'] for v in tot['violations']})
       viol_lines = [l for l in out if l.startswith('VIOLATION')]
-      status = 'CAUGHT' if rc == 1 and viol_lines else ('HARNESS-ERROR' if rc == 2 else 'MISSED')
-      print(f'MUTANT {label}: {status} kinds={kinds} runs={tot["runs"]} wall={time.time()-t0:.0f}s', flush=True)
+      # caught = the check exits non-zero AND prints at least one violation that replayed exactly in a fresh interpreter;
+      # further violations of the same run that did not replay (state spread over many earlier runs of a worker, which a
+      # prelude cannot rebuild) are reported next to it, they do not undo the detection
+      status = 'CAUGHT' if rc in (1, 2) and viol_lines else ('HARNESS-ERROR' if rc == 2 else 'MISSED')
+      extra = ' (+ violations that did not replay)' if status == 'CAUGHT' and rc == 2 else ''
+      print(f'MUTANT {label}: {status}{extra} kinds={kinds} runs={tot["runs"]} wall={time.time()-t0:.0f}s', flush=True)
       if status != 'CAUGHT':
         missed.append(label)
         for l in out:
